@@ -8,6 +8,8 @@ exactly the original value and `allowEscapes = true` — for every byte string.
 namespace Ecal.C08.QR
 open Ecal.Lex Ecal.Print
 
+variable (ip : Nat → Bool)
+
 local macro "om" : tactic => `(tactic| first | trivial | omega | (split <;> omega))
 
 /-- the five outcomes of `utf8.DecodeRune` -/
@@ -275,12 +277,12 @@ theorem hex8_plain (n : Nat) : Plain (hex8 n) := by
   · exact hex4_plain n c hc
 
 /-- every way `quotePiece` can go, with what is known in that branch -/
-theorem quotePiece_cases (l : List Nat) (r w : Nat) (p : List Nat) (hp : quotePiece l r w = p) :
+theorem quotePiece_cases (l : List Nat) (r w : Nat) (p : List Nat) (hp : quotePiece ip l r w = p) :
     (w = 1 ∧ r = runeError ∧ p = [92, 120] ++ hex2 (l.getD 0 0)) ∨
     (¬ (w = 1 ∧ r = runeError) ∧
       ((r = 34 ∧ p = [92, 34]) ∨ (r = 92 ∧ p = [92, 92]) ∨
-       (r ≠ 34 ∧ r ≠ 92 ∧ isPrint r = true ∧ p = l.take w) ∨
-       (r ≠ 34 ∧ r ≠ 92 ∧ isPrint r = false ∧
+       (r ≠ 34 ∧ r ≠ 92 ∧ ip r = true ∧ p = l.take w) ∨
+       (r ≠ 34 ∧ r ≠ 92 ∧ ip r = false ∧
          ((r = 7 ∧ p = [92, 97]) ∨ (r = 8 ∧ p = [92, 98]) ∨ (r = 12 ∧ p = [92, 102]) ∨
           (r = 10 ∧ p = [92, 110]) ∨ (r = 13 ∧ p = [92, 114]) ∨ (r = 9 ∧ p = [92, 116]) ∨
           (r = 11 ∧ p = [92, 118]) ∨
@@ -302,10 +304,10 @@ theorem quotePiece_cases (l : List Nat) (r w : Nat) (p : List Nat) (hp : quotePi
   by_cases h92 : r = 92
   · rw [if_pos h92] at hp; exact Or.inr (Or.inl ⟨h92, hp.symm⟩)
   rw [if_neg h92] at hp
-  by_cases hpr : isPrint r = true
+  by_cases hpr : ip r = true
   · rw [if_pos hpr] at hp; exact Or.inr (Or.inr (Or.inl ⟨h34, h92, hpr, hp.symm⟩))
   rw [if_neg hpr] at hp
-  have hnp' : isPrint r = false := by simpa using hpr
+  have hnp' : ip r = false := by simpa using hpr
   refine Or.inr (Or.inr (Or.inr ⟨h34, h92, hnp', ?_⟩))
   by_cases k1 : r = 7
   · rw [if_pos k1] at hp; exact Or.inl ⟨k1, hp.symm⟩
@@ -344,7 +346,7 @@ theorem quotePiece_cases (l : List Nat) (r w : Nat) (p : List Nat) (hp : quotePi
 /-- The scan passes over what `strconv.Quote` writes for one rune and is un-escaped afterwards. -/
 theorem scan_piece (c : Nat) (tl : List Nat) (r w : Nat) (hd : decodeHead (c :: tl) = (r, w))
     (f : Nat) (t x : List Nat) (h : scan f t false = some x) :
-    scan (f + (quotePiece (c :: tl) r w).length) (quotePiece (c :: tl) r w ++ t) false = some x := by
+    scan (f + (quotePiece ip (c :: tl) r w).length) (quotePiece ip (c :: tl) r w ++ t) false = some x := by
   have esc2 : ∀ e, e < 0x80 → scan (f + [92, e].length) ([92, e] ++ t) false = some x := by
     intro e he
     have := scan_escape e he [] (by intro c hc; simp at hc) f t x h
@@ -355,7 +357,7 @@ theorem scan_piece (c : Nat) (tl : List Nat) (r w : Nat) (hd : decodeHead (c :: 
     have e1 : f + ([92, e] ++ q).length = f + (2 + q.length) := by simp; omega
     rw [e1]
     simpa [List.append_assoc] using this
-  rcases quotePiece_cases (c :: tl) r w _ rfl with ⟨_, _, hp⟩ | ⟨hv, hrest⟩
+  rcases quotePiece_cases ip (c :: tl) r w _ rfl with ⟨_, _, hp⟩ | ⟨hv, hrest⟩
   · rw [hp]; exact escq 120 _ (by omega) (hex2_plain _)
   · rcases hrest with ⟨_, hp⟩ | ⟨_, hp⟩ | ⟨h34, h92, _, hp⟩ | ⟨_, _, _, hrest⟩
     · rw [hp]; exact esc2 34 (by omega)
@@ -400,17 +402,17 @@ theorem scan_piece (c : Nat) (tl : List Nat) (r w : Nat) (hd : decodeHead (c :: 
 
 /-- The scan for the closing quote stops exactly behind the quoted text, whatever follows. -/
 theorem scan_body : ∀ (f : Nat) (v rest : List Nat),
-    scan ((quoteBody f v).length + 1) (quoteBody f v ++ 34 :: rest) false = some rest
+    scan ((quoteBody ip f v).length + 1) (quoteBody ip f v ++ 34 :: rest) false = some rest
   | 0, v, rest => by simp [quoteBody, scan, decodeHead_ascii 34 rest (by omega)]
   | f+1, [], rest => by simp [quoteBody, scan, decodeHead_ascii 34 rest (by omega)]
   | f+1, c :: cs, rest => by
     have ih := scan_body f ((c :: cs).drop (decodeHead (c :: cs)).2) rest
-    have := scan_piece c cs (decodeHead (c :: cs)).1 (decodeHead (c :: cs)).2 rfl _ _ _ ih
+    have := scan_piece ip c cs (decodeHead (c :: cs)).1 (decodeHead (c :: cs)).2 rfl _ _ _ ih
     simp only [quoteBody, List.length_append, List.append_assoc]
-    have e : (quotePiece (c :: cs) (decodeHead (c :: cs)).1 (decodeHead (c :: cs)).2).length +
-        (quoteBody f ((c :: cs).drop (decodeHead (c :: cs)).2)).length + 1 =
-        (quoteBody f ((c :: cs).drop (decodeHead (c :: cs)).2)).length + 1 +
-        (quotePiece (c :: cs) (decodeHead (c :: cs)).1 (decodeHead (c :: cs)).2).length := by omega
+    have e : (quotePiece ip (c :: cs) (decodeHead (c :: cs)).1 (decodeHead (c :: cs)).2).length +
+        (quoteBody ip f ((c :: cs).drop (decodeHead (c :: cs)).2)).length + 1 =
+        (quoteBody ip f ((c :: cs).drop (decodeHead (c :: cs)).2)).length + 1 +
+        (quotePiece ip (c :: cs) (decodeHead (c :: cs)).1 (decodeHead (c :: cs)).2).length := by omega
     rw [e]; exact this
 
 /-! ### unquoting -/
@@ -477,11 +479,11 @@ theorem unq_esc_U (fuel r : Nat) (hr : r < 4294967296) (hv : validRune r = true)
   simp [unquoteBody, hexN8 r hr t, hv]
 
 /-- Unquoting what `strconv.Quote` wrote for one rune gives the bytes of that rune back. -/
-theorem unq_piece (c : Nat) (tl : List Nat) (r w : Nat) (hd : decodeHead (c :: tl) = (r, w)) (hc : c < 256)
+theorem unq_piece (h10 : ip 10 = false) (c : Nat) (tl : List Nat) (r w : Nat) (hd : decodeHead (c :: tl) = (r, w)) (hc : c < 256)
     (fuel : Nat) (t : List Nat) :
-    unquoteBody (fuel+1) (quotePiece (c :: tl) r w ++ t) =
+    unquoteBody (fuel+1) (quotePiece ip (c :: tl) r w ++ t) =
       (unquoteBody fuel t).map ((c :: tl).take w ++ ·) := by
-  rcases quotePiece_cases (c :: tl) r w _ rfl with ⟨rfl, _, hp⟩ | ⟨hv, hrest⟩
+  rcases quotePiece_cases ip (c :: tl) r w _ rfl with ⟨rfl, _, hp⟩ | ⟨hv, hrest⟩
   · rw [hp]
     exact unq_esc_x fuel c hc t
   · obtain ⟨hpre, henc, hval, hasc, hge, hdrop, hw1⟩ := head_facts c tl r w hd hv
@@ -498,7 +500,7 @@ theorem unq_piece (c : Nat) (tl : List Nat) (r w : Nat) (hd : decodeHead (c :: t
       by_cases hr : r < 0x80
       · obtain ⟨rfl, rfl⟩ := hasc hr
         have h10 : r ≠ 10 := by
-          intro e; subst e; simp [isPrint] at hpr
+          intro e; subst e; rw [h10] at hpr; simp at hpr
         simp only [List.take_succ_cons, List.take_zero, List.cons_append, List.nil_append]
         rw [unq_other fuel r t h10 h34 h92, if_pos hr]
       · have hc80 : 0x80 ≤ c := hge (by omega)
@@ -565,8 +567,8 @@ theorem drop_len (c : Nat) (cs : List Nat) :
   simp only [List.length_drop]; omega
 
 theorem piece_pos (c : Nat) (tl : List Nat) (r w : Nat) (hd : decodeHead (c :: tl) = (r, w)) :
-    0 < (quotePiece (c :: tl) r w).length := by
-  rcases quotePiece_cases (c :: tl) r w _ rfl with ⟨_, _, hp⟩ | ⟨_, hrest⟩
+    0 < (quotePiece ip (c :: tl) r w).length := by
+  rcases quotePiece_cases ip (c :: tl) r w _ rfl with ⟨_, _, hp⟩ | ⟨_, hrest⟩
   · rw [hp]; simp
   · rcases hrest with ⟨_, hp⟩ | ⟨_, hp⟩ | ⟨_, _, _, hp⟩ | ⟨_, _, _, hrest⟩
     · rw [hp]; simp
@@ -579,8 +581,8 @@ theorem piece_pos (c : Nat) (tl : List Nat) (r w : Nat) (hd : decodeHead (c :: t
         ⟨_, _, hp⟩ | ⟨_, hp⟩ <;> (rw [hp]; simp)
 
 /-- Unquoting the quoted text gives the value back — every byte string. -/
-theorem unq_body : ∀ (f : Nat) (v : List Nat) (fuel : Nat), v.length < f → (quoteBody f v).length < fuel →
-    (∀ b ∈ v, b < 256) → unquoteBody fuel (quoteBody f v) = some v
+theorem unq_body (h10 : ip 10 = false) : ∀ (f : Nat) (v : List Nat) (fuel : Nat), v.length < f → (quoteBody ip f v).length < fuel →
+    (∀ b ∈ v, b < 256) → unquoteBody fuel (quoteBody ip f v) = some v
   | 0, v, _, hf, _, _ => by omega
   | f+1, [], fuel, _, hfu, _ => by
     cases fuel with
@@ -591,13 +593,13 @@ theorem unq_body : ∀ (f : Nat) (v : List Nat) (fuel : Nat), v.length < f → (
     | zero => simp at hfu
     | succ fuel =>
       have hlt := drop_len c cs
-      have hpp := piece_pos c cs (decodeHead (c :: cs)).1 (decodeHead (c :: cs)).2 rfl
+      have hpp := piece_pos ip c cs (decodeHead (c :: cs)).1 (decodeHead (c :: cs)).2 rfl
       rw [quoteBody, List.length_append] at hfu
-      have ih := unq_body f ((c :: cs).drop (decodeHead (c :: cs)).2) fuel
+      have ih := unq_body h10 f ((c :: cs).drop (decodeHead (c :: cs)).2) fuel
         (by simp only [List.length_cons] at hf hlt ⊢; omega)
         (by omega)
         (fun b hbm => hb b (List.mem_of_mem_drop hbm))
-      rw [quoteBody, unq_piece c cs (decodeHead (c :: cs)).1 (decodeHead (c :: cs)).2 rfl (hb c (by simp)), ih]
+      rw [quoteBody, unq_piece ip h10 c cs (decodeHead (c :: cs)).1 (decodeHead (c :: cs)).2 rfl (hb c (by simp)), ih]
       simp
 
 /-! ### bridge to the lexer state `L` -/
@@ -700,19 +702,19 @@ theorem slice_mid : ∀ (pre qb tail : List Nat),
 theorem next_inp (l : L) : (l.next).1.inp = l.inp := by
   unfold L.next; split <;> rfl
 
-/-- **lex (quote v) = v on the real models.** Wherever the text `Ecal.Print.quote v` stands in the input
+/-- **lex (quoteWith ip v) = v on the real models.** Wherever the text `Ecal.Print.quoteWith ip v` stands in the input
     (after `pre`, before `rest`), `Ecal.Lex.lexValue` — started at its first byte — emits exactly one
     token: a string token with value `v`, `allowEscapes = true`, `identifier = false`, positioned at the
     literal, and stops directly behind the literal. For EVERY byte string `v` (invalid UTF-8, U+FFFD,
     control characters, quotes, backslashes …). -/
-theorem lexValue_quote (l0 : L) (pre v rest : List Nat) (hv : ∀ b ∈ v, b < 256)
-    (hinp : l0.inp = (pre ++ (quote v ++ rest)).toArray) (hpos : l0.pos = pre.length) :
+theorem lexValue_quote (h10 : ip 10 = false) (l0 : L) (pre v rest : List Nat) (hv : ∀ b ∈ v, b < 256)
+    (hinp : l0.inp = (pre ++ (quoteWith ip v ++ rest)).toArray) (hpos : l0.pos = pre.length) :
     ∃ t : Tok, (lexValue l0).2 = Next.token ∧ (lexValue l0).1.toks = l0.toks.push t ∧
       t.id = tSTRING ∧ t.val = v ∧ t.allowEscapes = true ∧ t.identifier = false ∧ t.pos = pre.length ∧
-      (lexValue l0).1.pos = pre.length + (quote v).length ∧ (lexValue l0).1.inp = l0.inp := by
+      (lexValue l0).1.pos = pre.length + (quoteWith ip v).length ∧ (lexValue l0).1.inp = l0.inp := by
   -- the quoted text
-  generalize hqb : quoteBody (v.length + 1) v = qb
-  have hq : quote v = 34 :: (qb ++ [34]) := by simp [quote, hqb]
+  generalize hqb : quoteBody ip (v.length + 1) v = qb
+  have hq : quoteWith ip v = 34 :: (qb ++ [34]) := by simp [quoteWith, hqb]
   have hsize : l0.inp.size = pre.length + (qb.length + 2 + rest.length) := by
     rw [hinp, hq]; simp; omega
   -- the state after `start := pos`
@@ -726,7 +728,7 @@ theorem lexValue_quote (l0 : L) (pre v rest : List Nat) (hv : ∀ b ∈ v, b < 2
   -- the loop
   have hscan : scan (la.next.1.next.1.inp.size + 2) (rem la.next.1) false = some rest := by
     rw [r1]
-    have := scan_body (v.length + 1) v rest
+    have := scan_body ip (v.length + 1) v rest
     rw [hqb] at this
     refine scan_mono _ _ ?_ _ _ _ this
     rw [next_inp, i1]; show qb.length + 1 ≤ l0.inp.size + 2
@@ -748,7 +750,7 @@ theorem lexValue_quote (l0 : L) (pre v rest : List Nat) (hv : ∀ b ∈ v, b < 2
     rw [e]
     simpa [List.extract] using this
   have hunq : unquoteBody (qb.length + 2) qb = some v := by
-    rw [← hqb]; exact unq_body (v.length + 1) v _ (by omega) (by omega) hv
+    rw [← hqb]; exact unq_body ip h10 (v.length + 1) v _ (by omega) (by omega) hv
   -- put it together
   have hopen : lexValueOpen l0 = (la.next.1, true, some 34) := by
     unfold lexValueOpen
